@@ -182,10 +182,14 @@ func (env *Zlisp) compareArray(a *SexpArray, b Sexp) (int, error) {
 	}
 	// two different arrays that contain themselves would be walked
 	// forever, until the Go stack overflows and takes the process down.
-	env.compareDepth++
-	defer func() { env.compareDepth-- }()
-	if env.compareDepth > maxCompareDepth {
-		return 0, fmt.Errorf("cannot compare arrays nested more than %d deep (does one contain itself?)", maxCompareDepth)
+	// (some callers, like positional access into a hash, compare keys
+	// without an interpreter at hand: env can be nil here)
+	if env != nil {
+		env.compareDepth++
+		defer func() { env.compareDepth-- }()
+		if env.compareDepth > maxCompareDepth {
+			return 0, fmt.Errorf("cannot compare arrays nested more than %d deep (does one contain itself?)", maxCompareDepth)
+		}
 	}
 	var length int
 	if len(a.Val) < len(ba.Val) {
